@@ -5,7 +5,7 @@ CONSTANTS
   RPCs <- One
   CScript <- G_down
   SScript <- GS_down
-  Faults <- AllFaults
+  Faults <- AllFaults4
   MaxFaults = 1
   Stepped = TRUE
   Dir = "rev"
